@@ -3023,6 +3023,11 @@ TABLE_RNS = [
      "abstract": RNS_Q},
     {"file": UR, "fn": "mod_t_and_divide_q_last_inplace", "impl": "RNSTool", "model": "RNSTool.modTAndDivideQLast", "nested_loops": True,
      "abstract": RNS_QB},
+    {"file": UP, "fn": "multiply_operand", "iters": True, "model": "mapM mulOperandMod"},
+    {"file": UR, "fn": "sm_mrq", "impl": "RNSTool", "model": "RNSTool.smMrq", "nested_loops": True,
+     "abstract": [("self.base_Bsk.len()", "bskSize", "Nat"), ("self.base_Bsk.base_at(#)", "baseBsk", "List Modulus"), ("self.coeff_count", "coeffCount", "Nat"),
+                  ("self.m_tilde", "mTilde", "Modulus"), ("self.neg_inv_prod_q_mod_m_tilde", "negInvProdQModMt", "MulOperand"),
+                  ("self.prod_q_mod_Bsk[#]", "prodQModBsk", "List Nat"), ("self.inv_m_tilde_mod_Bsk[#]", "invMtModBsk", "List MulOperand")]},
     {"file": UB, "fn": "set_uint", "model": "copy of the first len words"},
     {"file": UR, "fn": "divide_and_round_q_last_ntt_inplace", "impl": "RNSTool", "model": "RNSTool.divideAndRoundQLastNtt", "nested_loops": True,
      "abstract": RNS_Q, "opaque": ["NTTTables"],
